@@ -492,8 +492,9 @@ func runC20(c *Check) {
 				outcomes[x.Obs] = true
 				c.Distinct(x.Obs)
 				w := lastWorld
-				if first {
+				if first || states%64 == 0 {
 					first = false
+					// replay validation: the first execution of every harness and every 64th execution
 					y := ex.runOne(x.Choices)
 					validated++
 					if y.Obs != x.Obs {
